@@ -49,7 +49,11 @@ def run(ctx):
             if c.get(need, 0) == 0:
                 raise ToolError("vacuous replay: counter %s is 0" % need)
     driven = r["evaluations"]
+    import h3_jobs
+    h3 = h3_jobs.h3_services_job(ctx)
+    driven += h3["h3_services_evaluations"]
     return ctx.finish("model_checking", {
+        "http3": h3,
         "states": t["distinct"] + sum(b["distinct"] for b in bps), "transitions": t["states"] + sum(b["states"] for b in bps),
         "traces_validated_against_impl": driven,
         "replayed_behaviours": driven,
@@ -76,7 +80,7 @@ def run(ctx):
                        "PolicyIndependent (+PolicyIndependentTable, Precedence as constant-level assumptions), ForwardedCarriesProtocol and OutcomeAllowed "
                        "hold on every reachable state; every initial state and every finished back-pressure behaviour is replayed into the code.",
     }, assumptions=[
-        "HTTP/3 is not driven end to end (the QUIC codec needs a QUIC client): its routing rows are evaluated on the real HttpDemux::select only",
+        "HTTP/3: the request heads of Services.tla for protocol h3 are driven end to end with a quiche client (http3 entry); reverse-proxy relays over HTTP/3 are covered by routing rows only",
         "per-connection routing by TLS host (TlsDemux, property C05) is entered through doors that do what Core::on_new_tls_connection does after the handshake",
         "where the statement leaves the outcome open the specification lists every acceptable outcome: Content-Length 0, numbers written with a sign or "
         "leading zeros, a /speed/ segment on a speedtest host, a query string, and (HTTP/2 only) a Content-Length that is not a decimal number, "
